@@ -243,8 +243,8 @@ impl World {
             })));
         }
         let s = self.subs[i].as_mut().unwrap();
-        // a wake-up that arrives from now on belongs to the registration of this poll (if it parks)
-        self.flags.borrow()[i].0 .0.store(false, Ordering::SeqCst);
+        // every poll supplies a NEW waker: a wake-up that arrives from now on belongs to the registration of this poll
+        { let mut fl = self.flags.borrow_mut(); if fl[i].1 && !fl[i].0 .0.load(Ordering::SeqCst) { let (f, w) = flag_waker(); fl[i].0 = f; s.waker = w; } else { fl[i].0 .0.store(false, Ordering::SeqCst); } }
         let mut cx = Context::from_waker(&s.waker);
         let res: Result<Poll<Option<Vec<VectorDiff<V>>>>, ()> = match &mut s.st {
             St::Plain(st) => catch(|| st.as_mut().poll_next(&mut cx).map(|o| o.map(|d| vec![d]))),
